@@ -70,11 +70,27 @@ func (s *SessionStore) Load(req *http.Request) (*sessions.SessionState, error) {
 // Clear clears any saved session information by writing a cookie to
 // clear the session
 func (s *SessionStore) Clear(rw http.ResponseWriter, req *http.Request) error {
+	cleared := make(map[string]struct{})
 	for _, c := range req.Cookies() {
 		if s.isSessionCookieName(c.Name) {
 			clearCookie := s.makeCookie(req, c.Name, "", time.Hour*-1)
 
 			http.SetCookie(rw, clearCookie)
+			cleared[c.Name] = struct{}{}
+		}
+	}
+
+	// A session saved earlier while handling this request (eg. refreshed by
+	// the stored session loader) may have been written to other cookie names
+	// than the ones presented with the request: expire those as well.
+	pending := http.Response{Header: rw.Header()}
+	for _, c := range pending.Cookies() {
+		if _, ok := cleared[c.Name]; ok || c.Value == "" {
+			continue
+		}
+		if s.isSessionCookieName(c.Name) {
+			http.SetCookie(rw, s.makeCookie(req, c.Name, "", time.Hour*-1))
+			cleared[c.Name] = struct{}{}
 		}
 	}
 
